@@ -167,7 +167,10 @@ pub fn record_one(sc: &Value, out: &mut Out, id: usize) {
                 out.line(&row_event(&trace, t));
             }
             let o = trace.stack_outputs();
-            let chip = chiplet_rows(&trace);
+            let mut chip = chiplet_rows(&trace);
+            if sc["chiprows"].as_bool().unwrap_or(false) {
+                chip["full"] = chiplet_full(&trace);
+            }
             out.line(&json!({"e": "end", "outcome": "ok", "cycles": n, "trace_len": trace.get_trace_len(), "chip": chip,
                 "out_stack": o.stack().iter().map(|x| u64_to_limbs(*x)).collect::<Vec<_>>(),
                 "out_addrs": o.overflow_addrs().iter().map(|x| u64_to_limbs(*x)).collect::<Vec<_>>(),
@@ -226,6 +229,94 @@ pub fn chiplet_rows(trace: &ExecutionTrace) -> Value {
         }
     }
     json!({"mem": mem, "memd": memd, "bw": bw, "hasher_rows": hasher_rows, "kernel": kernel, "range": range})
+}
+
+/// every row of the chiplets segment, by component (Chiplets.tla predicts them from the requests the specification
+/// issued); `rounds`: for every 8-row hasher cycle the seven round outputs the RPO primitive computes from the state
+/// recorded in the cycle's first row (the permutation is uninterpreted in the specification and bound by this table)
+pub fn chiplet_full(trace: &ExecutionTrace) -> Value {
+    use miden_air::trace::chiplets::{
+        BITWISE_A_COL_IDX, BITWISE_A_COL_RANGE, BITWISE_B_COL_IDX, BITWISE_B_COL_RANGE, BITWISE_OUTPUT_COL_IDX, BITWISE_PREV_OUTPUT_COL_IDX,
+        BITWISE_SELECTOR_COL_IDX, HASHER_NODE_INDEX_COL_IDX, HASHER_SELECTOR_COL_RANGE, HASHER_STATE_COL_RANGE, MEMORY_ADDR_COL_IDX,
+        MEMORY_CLK_COL_IDX, MEMORY_CTX_COL_IDX, MEMORY_D0_COL_IDX, MEMORY_D1_COL_IDX, MEMORY_D_INV_COL_IDX, MEMORY_SELECTORS_COL_IDX, MEMORY_V_COL_RANGE,
+    };
+    use miden_air::trace::{CHIPLETS_OFFSET, CHIPLETS_WIDTH};
+    let m = trace.main_segment();
+    let total = trace.get_trace_len() - 1;
+    let g = |c: usize, t: usize| m.get_column(c)[t];
+    let (mut hasher, mut rounds, mut bw, mut mem, mut kern) = (vec![], vec![], vec![], vec![], vec![]);
+    let (mut pad, mut pad_zero, mut order_ok, mut stage) = (0usize, true, true, 0usize);
+    for t in 0..total {
+        let s = |i: usize| g(CHIPLETS_OFFSET + i, t);
+        let kind = if s(0) == vm_core::ZERO { 0 } else if s(1) == vm_core::ZERO { 1 } else if s(2) == vm_core::ZERO { 2 } else if s(3) == vm_core::ZERO { 3 } else { 4 };
+        if kind < stage {
+            order_ok = false;
+        }
+        stage = kind;
+        // selector columns must be exactly 0 / 1
+        for i in 0..(kind + 1).min(4) {
+            if s(i) != vm_core::ZERO && s(i) != vm_core::ONE {
+                order_ok = false;
+            }
+        }
+        match kind {
+            0 => {
+                let sel: Vec<u64> = HASHER_SELECTOR_COL_RANGE.map(|c| g(c, t).as_int()).collect();
+                let st: Vec<Felt> = HASHER_STATE_COL_RANGE.map(|c| g(c, t)).collect();
+                if hasher.len() % 8 == 0 {
+                    let mut x = [vm_core::ZERO; 12];
+                    x.copy_from_slice(&st);
+                    let mut rs = vec![];
+                    for r in 0..7 {
+                        Rpo256::apply_round(&mut x, r);
+                        rs.push(felts_to_json(&x));
+                    }
+                    rounds.push(Value::Array(rs));
+                }
+                hasher.push(json!([sel, felts_to_json(&st), felt_to_limbs(g(HASHER_NODE_INDEX_COL_IDX, t))]));
+            }
+            1 => {
+                let ab: Vec<u64> = BITWISE_A_COL_RANGE.map(|c| g(c, t).as_int()).collect();
+                let bb: Vec<u64> = BITWISE_B_COL_RANGE.map(|c| g(c, t).as_int()).collect();
+                bw.push(json!([g(BITWISE_SELECTOR_COL_IDX, t).as_int(), felt_to_limbs(g(BITWISE_A_COL_IDX, t)), felt_to_limbs(g(BITWISE_B_COL_IDX, t)), ab, bb,
+                               felt_to_limbs(g(BITWISE_PREV_OUTPUT_COL_IDX, t)), felt_to_limbs(g(BITWISE_OUTPUT_COL_IDX, t))]));
+                for c in (BITWISE_OUTPUT_COL_IDX + 1)..(CHIPLETS_OFFSET + CHIPLETS_WIDTH) {
+                    if g(c, t) != vm_core::ZERO {
+                        pad_zero = false;
+                    }
+                }
+            }
+            2 => {
+                let w: Vec<Felt> = MEMORY_V_COL_RANGE.map(|c| g(c, t)).collect();
+                mem.push(json!([g(MEMORY_SELECTORS_COL_IDX, t).as_int(), g(MEMORY_SELECTORS_COL_IDX + 1, t).as_int(), g(MEMORY_CTX_COL_IDX, t).as_int(),
+                                felt_to_limbs(g(MEMORY_ADDR_COL_IDX, t)), g(MEMORY_CLK_COL_IDX, t).as_int(), felts_to_json(&w),
+                                g(MEMORY_D0_COL_IDX, t).as_int(), g(MEMORY_D1_COL_IDX, t).as_int(), felt_to_limbs(g(MEMORY_D_INV_COL_IDX, t))]));
+                for c in (MEMORY_D_INV_COL_IDX + 1)..(CHIPLETS_OFFSET + CHIPLETS_WIDTH) {
+                    if g(c, t) != vm_core::ZERO {
+                        pad_zero = false;
+                    }
+                }
+            }
+            3 => {
+                let r: Vec<Felt> = (0..4).map(|i| g(CHIPLETS_OFFSET + 6 + i, t)).collect();
+                kern.push(json!([g(CHIPLETS_OFFSET + 4, t).as_int(), g(CHIPLETS_OFFSET + 5, t).as_int(), felts_to_json(&r)]));
+                for c in (CHIPLETS_OFFSET + 10)..(CHIPLETS_OFFSET + CHIPLETS_WIDTH) {
+                    if g(c, t) != vm_core::ZERO {
+                        pad_zero = false;
+                    }
+                }
+            }
+            _ => {
+                pad += 1;
+                for c in (CHIPLETS_OFFSET + 4)..(CHIPLETS_OFFSET + CHIPLETS_WIDTH) {
+                    if g(c, t) != vm_core::ZERO {
+                        pad_zero = false;
+                    }
+                }
+            }
+        }
+    }
+    json!({"hasher": hasher, "rounds": rounds, "bw": bw, "mem": mem, "kern": kern, "pad": pad, "pad_zero": pad_zero, "order_ok": order_ok})
 }
 
 pub fn record_vm(inp: &str, outp: &str) {
